@@ -49,5 +49,13 @@ func GenConnScript(t *rapid.T) ConnScript {
 	} else {
 		s.Classes = append(s.Classes, "injectors:default")
 	}
+	if rapid.IntRange(0, 3).Draw(t, "verbose") == 0 {
+		s.Verbose = true
+		s.Classes = append(s.Classes, "verbose-logging-on")
+	}
+	if rapid.IntRange(0, 3).Draw(t, "viafield") == 0 {
+		s.ViaField = true
+		s.Classes = append(s.Classes, "injectors-set-through-the-handler-field")
+	}
 	return s
 }
